@@ -12,7 +12,7 @@
 (* Emitted, Masked, mean sample frequency for the ALT order).                 *)
 EXTENDS Integers, Sequences, FiniteSets, TLC, Json
 
-CONSTANTS Inst     \* [maxlen, minqs, fm, cv, th, samples] (see Inst* below)
+CONSTANTS Inst     \* [maxlen, minqs, fm, cv, th, samples, seed] (see Inst* below)
 
 None   == "none"
 Bases  == {"A", "C", "G", "T"}
@@ -47,6 +47,22 @@ Pile(d, a, c) ==
 
 (* order-free definition *)
 Count(s, c, smp, p, b) == Cardinality({i \in 1..Len(s) : Passing(s[i], c) /\ s[i].s = smp /\ s[i].cells[p] = b})
+
+(* n identical plain reads (no flags, MAPQ 60: passing under every read-filter  *)
+(* configuration) of sample e.s with cell vector e.cells add n at once.  Deep   *)
+(* instances (30-60 reads per sample) start from such a seed table instead of   *)
+(* the empty one; SeedIsPile states that this is n single pileup steps.         *)
+BulkPile(d, e) ==
+  [d EXCEPT ![e.s] = [p \in DOMAIN d[e.s] |->
+      IF e.cells[p] \in Bases THEN [d[e.s][p] EXCEPT ![e.cells[p]] = @ + e.n] ELSE d[e.s][p]]]
+RECURSIVE BulkTable(_, _)
+BulkTable(sq, k) == IF k = 0 THEN Zero ELSE TLCEval(BulkPile(BulkTable(sq, k - 1), sq[k]))
+SeedTable == BulkTable(Inst.seed, Len(Inst.seed))
+SeedAln(e) == [s |-> e.s, flags |-> {}, mapq |-> 60, cells |-> e.cells]
+RECURSIVE PileN(_, _, _, _)
+PileN(d, a, c, n) == IF n = 0 THEN d ELSE PileN(TLCEval(Pile(d, a, c)), a, c, n - 1)
+RECURSIVE SeedByReads(_, _)
+SeedByReads(k, c) == IF k = 0 THEN Zero ELSE PileN(SeedByReads(k - 1, c), SeedAln(Inst.seed[k]), c, Inst.seed[k].n)
 
 (* ------------------------------------------------------------------------ *)
 (* thresholds (exact rationals <<num, den>>)                                  *)
@@ -88,10 +104,13 @@ Masked(d, p, th) == MaskedR(d, p, th, RefBase[p])
 (*    individual thresholds are vacuous (0/0 frequency)                        *)
 (*  - the population mean frequency exactly on --maf with non-dyadic sample     *)
 (*    frequencies (float rounding of the sum)                                  *)
-IsPow2(n) == n \in {1, 2, 4, 8, 16, 32}
+(*  - a position without any read when every threshold is vacuous (--min-ind 0, *)
+(*    --maf 0, --mad 0): every allele "meets" them, frequencies are 0/0         *)
+IsPow2(n) == n \in {1, 2, 4, 8, 16, 32, 64}
 Ambiguous(d, p, th) ==
+  \/ Covered(d, p) = {} /\ th.mind = 0 /\ th.maf[1] = 0 /\ th.mad = 0
   \/ /\ Covered(d, p) # DOMAIN d /\ Covered(d, p) # {}
-     /\ (th.maf[1] > 0 \/ (th.imaf[1] = 0 /\ th.imad = 0))
+     /\ (th.maf[1] > 0 \/ (th.imaf[1] = 0 /\ th.imad = 0 /\ th.mind > 0))
   \/ /\ th.maf[1] > 0
      /\ \E s \in Covered(d, p) : ~IsPow2(Tot(d, s, p))
      /\ \E b \in Bases : LET m == MeanFreq(d, p, b) IN m[1] * th.maf[2] = th.maf[1] * m[2]
@@ -135,19 +154,57 @@ RECURSIVE ThSeq(_)
 ThSeq(S) == IF S = {} THEN <<>> ELSE LET x == CHOOSE y \in S : TRUE IN <<x>> \o ThSeq(S \ {x})
 
 FMQuick5 == << FM({}, 60), FM({}, 19), FM({"dup"}, 60), FM({"qcfail"}, 60), FM({"supp"}, 20) >>
-InstQuickFilter == [maxlen |-> 3, minqs |-> {0, 20}, samples |-> 2, fm |-> FMQuick5, cv |-> << <<"A", "C">>, <<"C", None>>, <<"N", "T">> >>, th |-> THJoint]
-InstQuickThresh == [maxlen |-> 4, minqs |-> {20}, samples |-> 2, fm |-> Plain, cv |-> CVSingle3, th |-> THQuick]
-InstThoroughFilter == [maxlen |-> 2, minqs |-> {0, 20, 30}, samples |-> 2, fm |-> FMThorough, cv |-> CVFilterT, th |-> THJoint]
-InstThoroughFilterDeep == [maxlen |-> 3, minqs |-> {0, 20, 30}, samples |-> 2, fm |-> FMQuick, cv |-> SubSeq(CVFilter, 1, 4), th |-> THJoint]
-InstThoroughThresh == [maxlen |-> 4, minqs |-> {20}, samples |-> 2, fm |-> Plain, cv |-> CVSingle, th |-> THThorough]
-InstThoroughThresh3 == [maxlen |-> 5, minqs |-> {20}, samples |-> 3, fm |-> Plain, cv |-> SubSeq(CVSingle, 1, 3), th |-> THQuick]
+InstQuickFilter == [maxlen |-> 3, minqs |-> {0, 20}, samples |-> 2, fm |-> FMQuick5, cv |-> << <<"A", "C">>, <<"C", None>>, <<"N", "T">> >>, th |-> THJoint, seed |-> <<>>]
+InstQuickThresh == [maxlen |-> 4, minqs |-> {20}, samples |-> 2, fm |-> Plain, cv |-> CVSingle3, th |-> THQuick, seed |-> <<>>]
+InstThoroughFilter == [maxlen |-> 2, minqs |-> {0, 20, 30}, samples |-> 2, fm |-> FMThorough, cv |-> CVFilterT, th |-> THJoint, seed |-> <<>>]
+InstThoroughFilterDeep == [maxlen |-> 3, minqs |-> {0, 20, 30}, samples |-> 2, fm |-> FMQuick, cv |-> SubSeq(CVFilter, 1, 4), th |-> THJoint, seed |-> <<>>]
+InstThoroughThresh == [maxlen |-> 4, minqs |-> {20}, samples |-> 2, fm |-> Plain, cv |-> CVSingle, th |-> THThorough, seed |-> <<>>]
+InstThoroughThresh3 == [maxlen |-> 5, minqs |-> {20}, samples |-> 3, fm |-> Plain, cv |-> SubSeq(CVSingle, 1, 3), th |-> THQuick, seed |-> <<>>]
 (* six plain reads over three samples at one position: the smallest table in which one sample meets only the individual   *)
 (* frequency threshold, another only the individual depth threshold, and a third keeps another allele legitimately       *)
 Q34 == <<3, 4>>
 THMinInd == {Th(Q34, 2, 1, Q0, 0), Th(Q34, 2, 2, Q0, 0), Th(Q2, 2, 1, Q0, 0), Th(Q34, 1, 1, Q0, 0)}
-InstMinInd == [maxlen |-> 6, minqs |-> {20}, samples |-> 3, fm |-> Plain, cv |-> SubSeq(CVSingle, 1, 3), th |-> THMinInd]
-InstTiny == [maxlen |-> 2, minqs |-> {0, 20, 30}, samples |-> 2, fm |-> FMQuick, cv |-> SubSeq(CVFilter, 1, 3), th |-> THJoint]
+InstMinInd == [maxlen |-> 6, minqs |-> {20}, samples |-> 3, fm |-> Plain, cv |-> SubSeq(CVSingle, 1, 3), th |-> THMinInd, seed |-> <<>>]
+InstTiny == [maxlen |-> 2, minqs |-> {0, 20, 30}, samples |-> 2, fm |-> FMQuick, cv |-> SubSeq(CVFilter, 1, 3), th |-> THJoint, seed |-> <<>>]
 
+(* ---- option boundary values (2 samples, plain reads at position 1, tables of up to 6 reads) ----------------------------- *)
+(* --min-ind 0 (population-only filtering) and n_samples + 1 (nothing can be listed); 1 and n_samples are in THQuick.         *)
+THBoundary == {Th(im, id, 0, mf, md) : im \in {Q0, Q2}, id \in {0, 2}, mf \in {Q0, Q4}, md \in {0, 2}}
+              \cup {Th(Q0, 0, 3, Q0, 0), Th(Q2, 2, 3, Q4, 2), Th(Q0, 0, 1, Q0, 0), Th(Q0, 0, 2, Q0, 2), Th(Q2, 2, 2, Q0, 0), ThDefault}
+InstBoundary == [maxlen |-> 6, minqs |-> {20}, samples |-> 2, fm |-> Plain, cv |-> SubSeq(CVSingle, 1, 3), th |-> THBoundary, seed |-> <<>>]
+
+(* ---- deep tables: 30-60 reads per sample, multi-allelic, ALT mean frequencies near-tied but unequal -------------------- *)
+(* A seed of identical plain reads covering both positions (position 1: A ref, C, G; position 2: C ref, A, T), then up to     *)
+(* maxlen single reads.  The thresholds sit at 0 and exactly on values observed in / next to the seed table.                 *)
+Sd(s, c1, c2, n) == [s |-> s, cells |-> <<c1, c2>>, n |-> n]
+(* depths 40 and 41; ALT counts 13,12 and 12,13: means 1013/3280 and 1012/3280 *)
+SeedNear == << Sd(1, "A", "C", 15), Sd(1, "C", "A", 13), Sd(1, "G", "T", 12),
+               Sd(2, "A", "C", 16), Sd(2, "C", "A", 12), Sd(2, "G", "T", 13) >>
+THNear == { ThDefault, Th(<<1, 10>>, 3, 0, Q0, 0), Th(<<1, 10>>, 3, 2, Q0, 0), Th(<<1, 10>>, 3, 3, Q0, 0),
+            Th(<<3, 10>>, 0, 1, Q0, 0), Th(<<3, 10>>, 0, 2, Q0, 0), Th(Q0, 13, 1, Q0, 0), Th(Q0, 13, 2, Q0, 0),
+            Th(Q0, 0, 1, Q0, 0), Th(Q0, 0, 0, Q0, 25), Th(Q0, 0, 0, Q0, 26), Th(Q2, 100, 0, Q0, 25),
+            Th(Q0, 0, 0, <<1013, 3280>>, 0), Th(Q0, 0, 0, <<3, 10>>, 0), Th(<<3, 10>>, 12, 1, <<3, 10>>, 25),
+            Th(<<1, 10>>, 3, 2, Q0, 26), Th(Q0, 0, 1, Q0, 25), Th(<<13, 40>>, 13, 1, Q0, 0) }
+InstDeepNear == [maxlen |-> 3, minqs |-> {20}, samples |-> 2, fm |-> Plain, cv |-> CVSingle3, th |-> THNear, seed |-> SeedNear]
+(* depths 31 and 32 (one read away from dyadic totals, where --maf exactly on the observed mean is decidable) *)
+SeedDyadic == << Sd(1, "A", "C", 11), Sd(1, "C", "A", 10), Sd(1, "G", "T", 10),
+                 Sd(2, "A", "C", 12), Sd(2, "C", "A", 10), Sd(2, "G", "T", 10) >>
+THDyadic == { ThDefault, Th(<<1, 10>>, 3, 0, Q0, 0), Th(<<1, 10>>, 3, 2, Q0, 0), Th(<<1, 10>>, 3, 3, Q0, 0),
+              Th(<<5, 16>>, 0, 1, Q0, 0), Th(<<5, 16>>, 10, 2, Q0, 0), Th(<<11, 32>>, 11, 1, Q0, 0),
+              Th(Q0, 0, 0, <<5, 16>>, 0), Th(Q0, 0, 0, <<21, 64>>, 0), Th(Q0, 0, 0, <<5, 16>>, 20), Th(Q0, 0, 0, Q0, 21),
+              Th(Q2, 11, 0, <<5, 16>>, 20), Th(<<1, 10>>, 3, 1, <<5, 16>>, 0), Th(<<1, 10>>, 3, 2, <<21, 64>>, 21),
+              Th(Q0, 0, 1, Q0, 0), Th(Q0, 0, 1, <<21, 64>>, 0) }
+InstDeepDyadic == [maxlen |-> 3, minqs |-> {20}, samples |-> 2, fm |-> Plain, cv |-> CVSingle3, th |-> THDyadic, seed |-> SeedDyadic]
+(* thorough: one more read, and three samples of depths 44, 45, 46 *)
+InstDeepNear4 == [InstDeepNear EXCEPT !.maxlen = 4]
+InstDeepDyadic4 == [InstDeepDyadic EXCEPT !.maxlen = 4]
+SeedThree == << Sd(1, "A", "C", 20), Sd(1, "C", "A", 12), Sd(1, "G", "T", 12),
+                Sd(2, "A", "C", 21), Sd(2, "C", "A", 12), Sd(2, "G", "T", 12),
+                Sd(3, "A", "C", 22), Sd(3, "C", "A", 12), Sd(3, "G", "T", 12) >>
+THThree == { ThDefault, Th(<<1, 10>>, 3, 0, Q0, 0), Th(<<1, 10>>, 3, 3, Q0, 0), Th(<<1, 10>>, 3, 4, Q0, 0),
+             Th(<<4, 15>>, 0, 1, Q0, 0), Th(<<4, 15>>, 12, 2, Q0, 0), Th(Q0, 13, 1, Q0, 0), Th(Q0, 0, 0, Q0, 37),
+             Th(Q0, 0, 0, <<4, 15>>, 0), Th(Q2, 50, 0, <<1, 4>>, 36), Th(Q0, 0, 1, Q0, 0), Th(<<1, 10>>, 3, 3, Q0, 37) }
+InstDeepThree == [maxlen |-> 3, minqs |-> {20}, samples |-> 3, fm |-> Plain, cv |-> CVSingle3, th |-> THThree, seed |-> SeedThree]
 
 THS == ThSeq(Inst.th)               \* constant: a fixed enumeration of the threshold configurations
 
@@ -165,7 +222,7 @@ vars == <<hist, last, depth>>
 
 Init == /\ hist = <<>>
         /\ last = <<1, 1, 1>>
-        /\ depth = [c \in FCs |-> Zero]
+        /\ depth = LET st == SeedTable IN [c \in FCs |-> st]    \* the empty table unless the instance has a seed
 
 Consume(ix) ==
   /\ Len(hist) < Inst.maxlen
@@ -181,8 +238,10 @@ Spec == Init /\ [][Next]_vars
 (* ------------------------------------------------------------------------ *)
 (* invariants                                                                *)
 (* ------------------------------------------------------------------------ *)
-DepthIsCount == \A c \in FCs : \A s \in Samples : \A p \in 1..NP : \A b \in Bases :
-  depth[c][s][p][b] = Count(hist, c, s, p, b)
+DepthIsCount == LET st == SeedTable IN \A c \in FCs : \A s \in Samples : \A p \in 1..NP : \A b \in Bases :
+  depth[c][s][p][b] = st[s][p][b] + Count(hist, c, s, p, b)
+(* the seed table is what the single-read pileup step gives for the seed's reads (checked at the initial state) *)
+SeedIsPile == (hist = <<>>) => LET st == SeedTable IN \A c \in FCs : SeedByReads(Len(Inst.seed), c) = st
 
 (* toggling one option changes the depths exactly by the alignments it affects *)
 OneUp(c, c2) == /\ c2.minq <= c.minq /\ (c.kd => c2.kd) /\ (c.kq => c2.kq) /\ (c.ks => c2.ks)
@@ -191,6 +250,7 @@ UpOf == [c \in FCs |-> {c2 \in FCs : OneUp(c, c2)}]
 FilterChangesDepth == \A c \in FCs : \A c2 \in UpOf[c] : \A s \in Samples : \A p \in 1..NP : \A b \in Bases :
   depth[c2][s][p][b] - depth[c][s][p][b] =
     Cardinality({i \in 1..Len(hist) : Passing(hist[i], c2) /\ ~Passing(hist[i], c) /\ hist[i].s = s /\ hist[i].cells[p] = b})
+    \* (seed reads pass every configuration)
 
 ThLeq(t, u) == /\ t.imaf[1] * u.imaf[2] <= u.imaf[1] * t.imaf[2] /\ t.imad <= u.imad /\ t.mind <= u.mind
                /\ t.maf[1] * u.maf[2] <= u.maf[1] * t.maf[2] /\ t.mad <= u.mad
@@ -205,7 +265,18 @@ ThresholdMonotone ==
   IN  \A ij \in ThPairsIdx : \A p \in 1..NP : K[ij[2]][p] \subseteq K[ij[1]][p]
 (* an allele without a single read is never listed once any threshold is positive *)
 KeptHasSupport == \A t \in Inst.th : \A p \in 1..NP : \A b \in Keep(D0, p, t) :
-  (t.imad > 0 \/ t.mad > 0 \/ t.imaf[1] > 0 \/ t.maf[1] > 0) => SumDepth(D0, Samples, p, b) > 0
+  ((t.mind > 0 /\ (t.imad > 0 \/ t.imaf[1] > 0)) \/ t.mad > 0 \/ t.maf[1] > 0) => SumDepth(D0, Samples, p, b) > 0
+(* boundary values of --min-ind: 0 leaves the population thresholds only, more than the number of samples lists nothing *)
+MinIndBoundary == \A t \in Inst.th : \A p \in 1..NP :
+  /\ (t.mind = 0 /\ Covered(D0, p) # {}) => Keep(D0, p, t) = {b \in Bases : PopOK(D0, p, b, t)}
+  /\ t.mind > Cardinality(Samples) => Keep(D0, p, t) = {}
+(* thresholds at 0 are vacuous: with --ind-maf 0 --ind-mad 0 --min-ind <= covered samples, --maf 0, --mad 0 every base is kept *)
+ZeroIsVacuous == \A t \in Inst.th : \A p \in 1..NP :
+  (t.imaf[1] = 0 /\ t.imad = 0 /\ t.maf[1] = 0 /\ t.mad = 0 /\ Covered(D0, p) # {} /\ t.mind <= Cardinality(Covered(D0, p)))
+     => Keep(D0, p, t) = Bases
+(* the exact mean sample frequencies (the ALT order key) of the four bases sum to one *)
+MeanFreqSumsToOne == \A p \in 1..NP : Covered(D0, p) # {} =>
+  LET m == [b \in Bases |-> MeanFreq(D0, p, b)] IN m["A"][1] + m["C"][1] + m["G"][1] + m["T"][1] = m["A"][2]
 (* emitted positions list at least two alleles; the reference is masked iff it failed *)
 EmitIffTwo == \A t \in Inst.th : \A p \in 1..NP :
   LET r == Rec(D0, p, t) IN (~r[4]) => ((r[1] # {}) <=> Cardinality(Keep(D0, p, t)) >= 2) /\ (r[1] # {} => (r[2] <=> RefBase[p] \notin r[1]))
@@ -223,7 +294,7 @@ Dump ==
                   outs |-> LET o == TLCEval([i \in 1..n |-> Out(d, THS[i])])
                            IN  {[th |-> {i \in 1..n : o[i] = x}, rec |-> x] : x \in {o[i] : i \in 1..n}}] : d \in ds}])>>)
 ThTable == [i \in 1..Len(THS) |-> <<THS[i].imaf, THS[i].imad, THS[i].mind, THS[i].maf, THS[i].mad>>]
-DumpTh == (hist = <<>>) => PrintT(<<"@@J", ToJson([thresholds |-> ThTable])>>)
+DumpTh == (hist = <<>>) => PrintT(<<"@@J", ToJson([thresholds |-> ThTable, seed |-> Inst.seed])>>)
 
 (* ------------------------------------------------------------------------ *)
 (* mutant definitions                                                        *)
@@ -238,5 +309,17 @@ MutSuppNoEffect == NoEffect(LAMBDA c, c2 : c.minq = c2.minq /\ c.kd = c2.kd /\ c
 (* a wrong threshold rule: population MAF applied per sample *)
 MutKeep(d, p, th) == {b \in Bases : IndOK(d, p, b, th) /\ (th.mad = 0 \/ SumDepth(d, Samples, p, b) >= th.mad)
                                     /\ \A s \in Covered(d, p) : FreqGeq(d, s, p, b, th.maf)}
+(* a wrong boundary: --min-ind 0 treated as 1 *)
+MutIndOK(d, p, b, th) ==
+  Cardinality({s \in Covered(d, p) : FreqGeq(d, s, p, b, th.imaf) /\ d[s][p][b] >= th.imad}) >= (IF th.mind < 1 THEN 1 ELSE th.mind)
+MutMinIndAtLeastOne == \A t \in Inst.th : \A p \in 1..NP :
+  Covered(D0, p) # {} => {b \in Bases : MutIndOK(D0, p, b, t) /\ PopOK(D0, p, b, t)} = Keep(D0, p, t)
+(* a wrong order key: the mean frequency at the 3 decimals of ADMF.  The deep instances contain tables in which two *)
+(* listed ALT alleles have unequal exact means that round to the same value                                          *)
+Round3(x) == (2000 * x[1] + x[2]) \div (2 * x[2])
+MutOrderRounded == \A t \in Inst.th : \A p \in 1..NP :
+  (~Ambiguous(D0, p, t) /\ Emitted(D0, p, t)) =>
+     \A b, c \in Keep(D0, p, t) \ {RefBase[p]} :
+        LET x == MeanFreq(D0, p, b) y == MeanFreq(D0, p, c) IN x[1] > y[1] => Round3(x) > Round3(y)
 MutMafPerSample == \A t \in Inst.th : \A p \in 1..NP : Ambiguous(D0, p, t) \/ MutKeep(D0, p, t) = Keep(D0, p, t)
 =============================================================================
